@@ -624,7 +624,9 @@ and gen_loop st env d : item list =
     if down then ei 0
     else if Rng.pct st.rng 20 then
       (* a bound computed from data, still at most n *)
-      EBin (BAnd, fst (gen_expr st env TInt 1 ~op:true), ei (if n >= 7 then 7 else if n >= 3 then 3 else if n >= 1 then 1 else 0))
+      (* generated in the scope where it will stand: after the counter's binding *)
+      EBin (BAnd, fst (gen_expr st { (bind env vi) with recf = None } TInt 1 ~op:true),
+            ei (if n >= 7 then 7 else if n >= 3 then 3 else if n >= 1 then 1 else 0))
     else ei (n * step) in
   let cond = if down then EBin (Gt0, ev i, bound) else EBin (Lt0, ev i, bound) in
   let incr = EAssign (ev i, EBin ((if down then Sub else Add), ev i, ei step)) in
